@@ -292,6 +292,8 @@ func replayC10(rf *vstat.ReplayFile) string {
 		return replayCB(rf)
 	case strings.HasPrefix(rf.Part, "burst"):
 		return replayBurst(rf)
+	case strings.HasPrefix(rf.Part, "pair"):
+		return replayPair(rf)
 	}
 	var probe struct {
 		Threads json.RawMessage `json:"threads"`
